@@ -52,6 +52,9 @@ Acceptable(sel, ids, F, CV, M, tol, fin(_)) ==
              /\ (~AnyFeas /\ Merits # {}) =>
                    /\ sel \in Merits
                    /\ \A j \in Merits : Le(M[sel], M[j])
+                   \* documented tie rule: least violation, then least objective
+                   /\ \A j \in Merits : Eq(M[j], M[sel]) => Le(CV[sel], CV[j])
+                   /\ \A j \in Merits : (Eq(M[j], M[sel]) /\ Eq(CV[j], CV[sel])) => Le(F[sel], F[j])
 
 (* --- the implementation-shaped filter ---------------------------------- *)
 
